@@ -2535,9 +2535,10 @@ class List(Parameter):
             )
         if item_type is not Undefined and class_ is not Undefined:
             self.item_type = item_type
-        elif item_type is Undefined or item_type is None:
+        elif item_type is Undefined or (item_type is None and class_ is not Undefined):
             self.item_type = class_
         else:
+            # (also an explicit item_type=None: "any type", not "unspecified")
             self.item_type = item_type
         self.is_instance = is_instance
         self.class_ = self.item_type
